@@ -144,6 +144,15 @@ def run(program, res, tier):
             res.fail_at("C25-S1", hd, "hash-lacks-column-names",
                         f"a return of hash_data_frame (`{unparse(rt.stmt.value)[:60]}`) uses {p}.columns at most to walk the columns: the names themselves are not "
                         f"part of the key, so frames that differ only in column names share a key", rt.stmt)
+        # a query result may repeat a column name: `d[c]` is then a frame, not a column — per-column work has to go by position
+        label_access = [sub for sub in ast.walk(hd.node) if isinstance(sub, ast.Subscript) and isinstance(sub.value, ast.Name) and sub.value.id == p
+                        and isinstance(sub.slice, ast.Name)
+                        and any(isinstance(c_, ast.comprehension) and isinstance(c_.target, ast.Name) and c_.target.id == sub.slice.id and f"{p}.columns" in unparse(c_.iter)
+                                for c_ in ast.walk(hd.node))]
+        if label_access and i == 0:
+            res.fail_at("C25-S1", hd, "hash-reads-columns-by-label",
+                        f"hash_data_frame reads `{unparse(label_access[0])}` for each name in {p}.columns: for a result with a repeated column name (SELECT x, s, x) that is a "
+                        f"data frame, and the hash raises AttributeError instead of keying the table", label_access[0])
         state = sorted(r for r in roots if r.startswith("g:_") or (r.startswith("g:") and r[2:] in hd.module.consts))
         if state:
             res.fail_at("C25-S1", hd, f"hash-reads-module-state:{state[0]}",
